@@ -171,6 +171,22 @@ Definition spec_merkle (w : world) (only : list bytes) : bool :=
                 end
         end) (s_outputs s ++ filter (fun a => match find_owner idx (a_path a) with Some _ => false | None => true end)
                                     (s_inputs s))   (* the role of the artifact does not matter either *)
+      &&
+      (* an input owned by another stage carries exactly the checksum that stage records for the
+         owning artifact: one artifact, one checksum, whoever was committed first *)
+      forallb (fun a =>
+        match find_owner idx (a_path a) with
+        | Some (op, oa) =>
+            match alookup op (w_stages w) with
+            | Some (Some os) =>
+                match art_lookup (a_path oa) (s_outputs os) with
+                | Some oa' => beqb (a_cs a) (a_cs oa')
+                | None => true
+                end
+            | _ => true
+            end
+        | None => true
+        end) (s_inputs s)
     | None => true
     end) (w_stages w).
 
